@@ -71,6 +71,58 @@ def list_index(I, st, fv, args, kwargs, ctx):
     return out
 
 
+def list_pop(I, st, fv, args, kwargs, ctx):
+    r = fv.data["self"]
+    h = st.heap[r.oid]
+    idx = args[0] if args else Conc(-1)
+    if not (isinstance(idx, Conc) and isinstance(idx.py, int)):
+        raise OutOfReach("list.pop(symbolic index)")
+    its = h.fields.get("$items")
+    if its is not None:
+        try:
+            v = its[idx.py]
+        except IndexError:
+            return [(st, Raise("IndexError"))]
+        new = list(its)
+        new.pop(idx.py)
+        h.fields["$items"] = new
+        terms = [I.term(x) for x in new]
+        h.seq = z3.Empty(vm.SeqV) if not terms else (z3.Unit(terms[0]) if len(terms) == 1 else z3.Concat(*[z3.Unit(t) for t in terms]))
+        return [(st, v)]
+    out = []
+    for (q, b) in I.branch(st, z3.Length(h.seq) > (idx.py if idx.py >= 0 else -idx.py - 1)):
+        if not b:
+            out.append((q, Raise("IndexError")))
+            continue
+        hq = q.heap[r.oid]
+        x = I.U.fresh("popped")
+        rest = I.U.fresh_seq("rest")
+        if idx.py == -1:
+            q.pc.append(hq.seq == z3.Concat(rest, z3.Unit(x)))
+        elif idx.py == 0:
+            q.pc.append(hq.seq == z3.Concat(z3.Unit(x), rest))
+        else:
+            raise OutOfReach("list.pop(%d) on symbolic list" % idx.py)
+        hq.seq = rest
+        out.append((q, Sym(x)))
+    return out
+
+
+def list_insert(I, st, fv, args, kwargs, ctx):
+    r = fv.data["self"]
+    h = st.heap[r.oid]
+    idx, v = args
+    its = h.fields.get("$items")
+    if its is not None and isinstance(idx, Conc) and isinstance(idx.py, int):
+        new = list(its)
+        new.insert(idx.py, v)
+        h.fields["$items"] = new
+        terms = [I.term(x) for x in new]
+        h.seq = z3.Unit(terms[0]) if len(terms) == 1 else z3.Concat(*[z3.Unit(t) for t in terms])
+        return [(st, Conc(None))]
+    raise OutOfReach("list.insert on symbolic list")
+
+
 def dict_get(I, st, fv, args, kwargs, ctx):
     from . import objects
     r = fv.data["self"]
@@ -186,6 +238,8 @@ def install(I):
     L["list.copy"] = list_copy
     L["list.clear"] = list_clear
     L["list.index"] = list_index
+    L["list.pop"] = list_pop
+    L["list.insert"] = list_insert
     L["dict.get"] = dict_get
     L["dict.pop"] = dict_pop
     L["dict.setdefault"] = dict_setdefault
